@@ -10,40 +10,51 @@ import tempfile
 VERIF = os.path.dirname(os.path.dirname(os.path.abspath(__file__)))
 
 
-def main():
-    only = sys.argv[1] if len(sys.argv) > 1 else None
-    rows = []
-    for name in sorted(os.listdir(os.path.join(VERIF, "seeded"))):
-        d = os.path.join(VERIF, "seeded", name)
-        if not os.path.isfile(os.path.join(d, "patch.diff")) or (only and only not in name):
-            continue
-        meta = json.load(open(os.path.join(d, "meta.json")))
-        tmp = tempfile.mkdtemp(prefix="seedr-")
-        try:
-            S = os.path.join(tmp, "repo")
-            shutil.copytree("/repo", S, ignore=shutil.ignore_patterns("target"))
-            r = subprocess.run(["git", "apply", os.path.join(d, "patch.diff")], cwd=S, stdout=subprocess.PIPE, stderr=subprocess.STDOUT, text=True)
+def one(name):
+    d = os.path.join(VERIF, "seeded", name)
+    meta = json.load(open(os.path.join(d, "meta.json")))
+    tmp = tempfile.mkdtemp(prefix="seedr-")
+    out = []
+    try:
+        S = os.path.join(tmp, "repo")
+        shutil.copytree("/repo", S, ignore=shutil.ignore_patterns("target"))
+        r = subprocess.run(["git", "apply", os.path.join(d, "patch.diff")], cwd=S, stdout=subprocess.PIPE, stderr=subprocess.STDOUT, text=True)
+        if r.returncode != 0:
+            return "%s PATCH NO LONGER APPLIES %s" % (name, r.stdout[:200])
+        fired = {}
+        for n in range(1, 18):
+            p = "C%02d" % n
+            e = dict(os.environ)
+            e.update({"VERIF_REPO": S, "VERIF_EVIDENCE_DIR": os.path.join(tmp, "ev"), "VERIF_REPORTS_DIR": os.path.join(tmp, "rp"), "CARGO_NET_OFFLINE": "true"})
+            r = subprocess.run([os.path.join(VERIF, "check"), p], cwd=VERIF, env=e, stdout=subprocess.PIPE, stderr=subprocess.STDOUT, text=True)
             if r.returncode != 0:
-                print(name, "PATCH NO LONGER APPLIES", r.stdout[:200])
-                continue
-            fired = {}
-            for n in range(1, 18):
-                p = "C%02d" % n
-                e = dict(os.environ)
-                e.update({"VERIF_REPO": S, "VERIF_EVIDENCE_DIR": os.path.join(tmp, "ev"), "VERIF_REPORTS_DIR": os.path.join(tmp, "rp"), "CARGO_NET_OFFLINE": "true"})
-                r = subprocess.run([os.path.join(VERIF, "check"), p], cwd=VERIF, env=e, stdout=subprocess.PIPE, stderr=subprocess.STDOUT, text=True)
-                if r.returncode != 0:
-                    fired[p] = [l for l in r.stdout.splitlines() if l.startswith("[")][:3]
-            meta["checks_that_fire"] = {p: ls[:2] for p, ls in fired.items()}
-            meta["detected_by_target_property_check"] = meta["property"] in fired
-            json.dump(meta, open(os.path.join(d, "meta.json"), "w"), indent=1)
-            rows.append((name, meta["property"], sorted(fired)))
-            print("%-55s target %s  fires: %s" % (name, meta["property"], sorted(fired)))
-            for p, ls in fired.items():
-                for l in ls[:1]:
-                    print("      ", l[:230])
-        finally:
-            shutil.rmtree(tmp, ignore_errors=True)
+                fired[p] = [l for l in r.stdout.splitlines() if l.startswith("[")][:3]
+        meta["checks_that_fire"] = {p: ls[:2] for p, ls in fired.items()}
+        meta["detected_by_target_property_check"] = meta["property"] in fired
+        json.dump(meta, open(os.path.join(d, "meta.json"), "w"), indent=1)
+        out.append("%-55s target %s  fires: %s" % (name, meta["property"], sorted(fired)))
+        for p, ls in fired.items():
+            for l in ls[:1]:
+                out.append("       " + l[:230])
+    finally:
+        shutil.rmtree(tmp, ignore_errors=True)
+    return "\n".join(out)
+
+
+def main():
+    args = [a for a in sys.argv[1:] if not a.startswith("-j")]
+    jobs = next((int(a[2:]) for a in sys.argv[1:] if a.startswith("-j") and a[2:].isdigit()), 1)
+    only = args[0] if args else None
+    names = [n for n in sorted(os.listdir(os.path.join(VERIF, "seeded"))) if os.path.isfile(os.path.join(VERIF, "seeded", n, "patch.diff")) and not (only and only not in n)]
+    if jobs <= 1:
+        for n in names:
+            print(one(n), flush=True)
+    else:
+        from concurrent.futures import ThreadPoolExecutor
+
+        with ThreadPoolExecutor(max_workers=jobs) as ex:
+            for txt in ex.map(one, names):
+                print(txt, flush=True)
     return 0
 
 
